@@ -241,7 +241,7 @@ def contexts_for(tokens, value: int | None = None) -> list[str]:
         if value is not None and 0 <= value < 0x10000:
             ctx.append("rmw")       # unsuffixed read-modify-write operand: width follows the value
     if lexable_in_directive(tokens):
-        ctx += ["dl", "assign", "symbol", "macro", "if", "loop_body", "macro_body_twice", "sparse_loop", "hollow_scopes", "loop_local_constant", "after_forward_label_argument", "scope_in_loop"]
+        ctx += ["dl", "assign", "symbol", "macro", "if", "loop_body", "macro_body_twice", "sparse_loop", "hollow_scopes", "loop_local_constant", "after_forward_label_argument", "scope_in_loop", "assigned_in_conditional", "macro_applied_in_loop"]
         if value is not None and -2 <= value <= 6:
             ctx.append("for")       # loop bound: the body is assembled max(0, value) times
         if value is not None and 0 <= value < 0x100:
@@ -276,6 +276,12 @@ def program_for(ctx: str, text: str) -> str:
     if ctx == "after_forward_label_argument":
         # an argument that is a plain expression keeps its value during expansion also when an earlier argument names a label defined later
         return head + f".macro mf(pl, pp) {{\n.if pp {{\n.db 1\n}} else {{\n.db 0\n}}\n.dl pp\n.dw pl\n}}\nmf(later_q, {text})\nlater_q:\n"
+    if ctx == "assigned_in_conditional":
+        # a constant set in the branch of a conditional that is taken is read by the statements after the conditional
+        return head + f"zq := 1\n.if 1 {{\nzq := ({text})\n}} else {{\nzq := 0\n}}\n.dl zq\n.if 0 {{\nzr := 0\n}} else {{\nzr := ({text}) + 1\n}}\n.dl zr\n"
+    if ctx == "macro_applied_in_loop":
+        # a macro body is assembled where it is applied: a name it mentions that the surrounding loop (or block) declares is that one
+        return head + f"zi := 9\n.macro mc() {{\n.dl ({text}) + zi\n}}\n.for zi := 0, 3 {{\nmc()\n}}\n{{\nzi := 5\nmc()\n}}\nmc()\n"
     if ctx == "scope_in_loop":
         # a named scope declared in every iteration: its members, read by their qualified names in the body, are the iteration's own
         return head + f".for zi := 0, 3 {{\n.scope ent {{\nzid = ({text}) + zi\n}}\n.dl ent.zid\n}}\n"
@@ -305,6 +311,10 @@ def expected_bytes(ctx: str, v: int) -> bytes:
         return le(v + 1, 3) + le(v + 3, 3) + le(v + 5, 3) + le(v + 7, 3)
     if ctx == "after_forward_label_argument":
         return (b"\x01" if v != 0 else b"\x00") + le(v, 3) + le(0x8006, 2)
+    if ctx == "assigned_in_conditional":
+        return le(v, 3) + le(v + 1, 3)
+    if ctx == "macro_applied_in_loop":
+        return le(v, 3) + le(v + 1, 3) + le(v + 2, 3) + le(v + 5, 3) + le(v + 9, 3)
     if ctx == "scope_in_loop":
         return le(v, 3) + le(v + 1, 3) + le(v + 2, 3)
     if ctx == "loop_local_constant":
